@@ -125,7 +125,7 @@ Print Assumptions C16_later_writes_independent.
    whole-pointer copy).
    ==================================================================================================== *)
 From CV Require Import Value.ValueEq Value.EqualM Value.Den Value.CanonMHeap Value.CanonMLoop Value.CanonMInd
-                       Value.CopyValue Value.CopyValueHeap Value.CopyValueInd Value.CopyValueEq Value.CanonSpec Value.EqualCorrect.
+                       Value.CopyValue Value.CopyValueHeap Value.CopyValueDefs Value.CopyValueInd Value.CopyValueEq Value.CanonSpec Value.EqualCorrect.
 From CV Require Import Core.SafetyProofs.
 
 (* SetPtr / SetRoot / PointerList.Set of a pointer of another message: afterwards the slot reads
@@ -153,7 +153,7 @@ Proof. exact copy_value_struct. Qed.
 Print Assumptions C16_copy_value_struct.
 
 (* the invariant behind both, for every fuel *)
-Theorem C16_copy_value_invariant : forall m, msg_ok m -> forall f, P_wp m f /\ P_cs m f.
+Theorem C16_copy_value_invariant : forall m, msg_ok m -> forall f, CopyValueDefs.P_wp m f /\ CopyValueDefs.P_cs m f.
 Proof. exact P_all. Qed.
 Print Assumptions C16_copy_value_invariant.
 
